@@ -415,6 +415,35 @@ def lazy_constant(model: Model, func: str, name: str) -> Optional[str]:
             f"value it replaces, and the variable is tested before it is (re)built")
 
 
+def filled_after_publication(model: Model, func: str, name: str) -> Optional[str]:
+    """`global NAME` is assigned an object that the same function goes on filling afterwards (through another name for the same
+    object): a thread on the lock-free fast path can read it half-built.  Returns a description, or None."""
+    fi = model.funcs.get(func)
+    if fi is None:
+        return None
+    fn = fi.node
+    for a in ast.walk(fn):
+        if not (isinstance(a, ast.Assign) and any(isinstance(t, ast.Name) and t.id == name for t in a.targets)):
+            continue
+        aliases = {t.id for t in a.targets if isinstance(t, ast.Name) and t.id != name}
+        if isinstance(a.value, ast.Name):
+            aliases.add(a.value.id)
+        aliases.add(name)
+        for n in ast.walk(fn):
+            line = getattr(n, "lineno", 0)
+            if line <= a.lineno:
+                continue
+            if isinstance(n, (ast.Assign, ast.AugAssign)):
+                tgts = n.targets if isinstance(n, ast.Assign) else [n.target]
+                for t in tgts:
+                    if isinstance(t, ast.Subscript) and isinstance(t.value, ast.Name) and t.value.id in aliases:
+                        return (f"`{core.src(a)[:60]}` (line {a.lineno}) publishes the object, `{core.src(n)[:60]}` (line {line}) is still filling it")
+            if isinstance(n, ast.Call) and isinstance(n.func, ast.Attribute) and isinstance(n.func.value, ast.Name) and n.func.value.id in aliases \
+                    and n.func.attr in ("append", "extend", "update", "add", "insert", "setdefault", "appendleft"):
+                return (f"`{core.src(a)[:60]}` (line {a.lineno}) publishes the object, `{core.src(n)[:60]}` (line {line}) is still filling it")
+    return None
+
+
 def recognise_global_memo(model: Model, func: str) -> Optional[List[str]]:
     """One-slot memo kept in module-level variables:  key = (..args..); if key == STORED_KEY: return STORED_VALUE; ...
     None if the function does not have that shape; else the list of problems (empty: exact-key memo whose key covers
